@@ -37,7 +37,9 @@ type pIn struct {
 	cut int64  // absolute instant now-minAge in unix seconds (0: min-age off)
 }
 
-func (p pIn) String() string { return fmt.Sprintf("{retained=%d l1head=%d cutoff_instant=%d}", p.R, p.l1, p.cut) }
+func (p pIn) String() string {
+	return fmt.Sprintf("{retained=%d l1head=%d cutoff_instant=%d}", p.R, p.l1, p.cut)
+}
 
 // refFloor is the documented cutoff: retainedBlocks blocks below min(L1 head, chain height) are
 // kept, the pivot itself on top; blocks whose timestamp is not older than min-age are kept as well;
@@ -82,7 +84,7 @@ type pruneCase struct {
 type session struct {
 	pc        *pruneCase
 	img       *memory.Database
-	cur       pIn   // inputs in force now (cut already includes the drift slept so far)
+	cur       pIn // inputs in force now (cut already includes the drift slept so far)
 	minAge    time.Duration
 	minAgeSet bool
 	effective *pIn // inputs in force when the pruner first had a durable effect
@@ -357,7 +359,9 @@ func runPrune(e *env, cls int) {
 	var images []image
 	var refRes *startRes
 	committed := false
-	ref := pc.uninterrupted(pc.in0, true, func(k int, info opInfo, mig int, img *memory.Database) {
+	// (chains with no-op writes: the copy loop fails half-way through a block's diff in map order, so
+	// batch contents, and with them the content-sorted schedule, are not reproducible: no per-op log)
+	ref := pc.uninterrupted(pc.in0, !pc.noop, func(k int, info opInfo, mig int, img *memory.Database) {
 		if mig == idxPrune {
 			committed = true
 		}
@@ -436,7 +440,9 @@ func runPrune(e *env, cls int) {
 			rin := inject{schedSeed: mix(pc.seed, uint64(im.k)), tag: fmt.Sprintf("rec%d", im.k)}
 			wantNested := nested < 3 && t.Chance("nested", 1, 6)
 			if wantNested {
-				rin.images = func(k int, info opInfo, _ int, img *memory.Database) { inner = append(inner, image{k: k, info: info, img: img}) }
+				rin.images = func(k int, info opInfo, _ int, img *memory.Database) {
+					inner = append(inner, image{k: k, info: info, img: img})
+				}
 			}
 			eff := s.effective
 			pc.finish(s, rin, what, kind)
@@ -511,6 +517,9 @@ func (pc *pruneCase) afterInterrupted(r *startRes, b binary, what, kind string) 
 
 func isCtxErr(err, ctxErr error) bool { return errors.Is(err, ctxErr) }
 
+// which block fails first may depend on the (content-sorted) order of partially filled batches
+var varBlockPart = regexp.MustCompile(`(at|for) block \d+`)
+
 var varErrPart = regexp.MustCompile(`(addr|slot) \[[^\]]*\]`)
 
 // stableErr renders an error of the migration without the parts that depend on Go's map iteration
@@ -519,7 +528,7 @@ func stableErr(err error) string {
 	if err == nil {
 		return "<nil>"
 	}
-	return varErrPart.ReplaceAllString(err.Error(), "$1 <..>")
+	return varBlockPart.ReplaceAllString(varErrPart.ReplaceAllString(err.Error(), "$1 <..>"), "$1 block <n>")
 }
 
 // uninterrupted runs the upgrade on a copy of the base with the given inputs, checks the result
@@ -540,8 +549,8 @@ func (pc *pruneCase) uninterrupted(in pIn, logOps bool, images func(int, opInfo,
 	}
 	f, prune := refFloor(pc.w.chain, in)
 	suffix := pc.shapeSuffix(f, prune)
-	if logOps {
-		c.Logf("ref: refused=%v err=%s ops=%d commits=%d applied=%b calls=%s", r.refused, stableErr(r.runErr), r.ops, r.commits, r.post.CurrentVersion, callStr(r.rl))
+	if logOps && r.runErr == nil {
+		c.Logf("ref: refused=%v ops=%d commits=%d applied=%b calls=%s", r.refused, r.ops, r.commits, r.post.CurrentVersion, callStr(r.rl))
 	}
 	if r.refused != nil || r.runErr != nil {
 		c.Fail("prune_uninterrupted_fails", "run_failed"+suffix, "uninterrupted upgrade with inputs %s (cutoff %d, prunes=%v) of a %d-block chain failed: refused=%v err=%s", in, f, prune, len(pc.w.chain), r.refused, stableErr(r.runErr))
